@@ -398,4 +398,75 @@ def clAllListed (csAll out : List (DbPep α)) : Bool :=
 
 end spec
 
+/-! ## the chunked prefilter build (`sage-cli` `Runner::prefilter_peptides`)
+
+`fasta.iter_chunks(k)` → per chunk `Parameters::build` → of every chunk's peptides a subset → concatenation in an
+arbitrary order (the code collects from a `HashSet`) → `Parameters::reorder_peptides` → `build_from_peptides`.
+The model concatenates in chunk order (`reorder_perm` in `Props/C08Chunk.lean`: the order is irrelevant).
+What differs from the unchunked build, as coded: the target set that removes decoys is PER CHUNK, so a generated
+(or tagged) decoy whose sequence is a target of ANOTHER chunk survives its chunk and meets that target only in
+the final `reorder_peptides`, where equal (mass, sequence, modifications, termini) are merged into a target that
+lists both proteins. Forms that differ in anything of that key — in particular in the f32 mass — are not merged. -/
+
+section chunked
+variable {α : Type} [Add α] [OfNat α 0] [BEq α] [LE α] [DecidableLE α] [LT α] [DecidableLT α]
+
+def chunksAux {β : Type} (k : Nat) : Nat → List β → List (List β)
+  | 0, _ => []
+  | _ + 1, [] => []
+  | f + 1, x :: xs => (x :: xs).take k :: chunksAux k f ((x :: xs).drop k)
+
+/-- `slice::chunks(k)` for `k > 0` -/
+def chunksOf {β : Type} (k : Nat) (l : List β) : List (List β) := chunksAux k l.length l
+
+/-- the subset rule of op `chunkdb`: entry `i` of chunk `c` is kept unless `(7 i + 3 c + seed) % 4 = 0` -/
+def keepEntry (seed c i : Nat) : Bool := (7 * i + 3 * c + seed) % 4 != 0
+
+/-- the kept peptides of all chunks, in chunk order -/
+def prefilterConcat (seed : Nat) (drop : Bool) (dbs : List (List (DbPep α))) : List (DbPep α) :=
+  (dbs.zipIdx).flatMap fun dc =>
+    (dc.1.zipIdx).filterMap fun pi => if drop && !keepEntry seed dc.2 pi.2 then none else some pi.1
+
+/-- the per-chunk databases; `none` = some chunk panics (no digest) -/
+def chunkDbs (cfg : Cfg α) (targets : List (C05.Seq × C05.Seq)) (k : Nat) : Option (List (List (DbPep α))) :=
+  (chunksOf k targets).mapM (buildDb cfg)
+
+/-- `prefilter_peptides`; `none` = panic (`chunks(0)`, or a chunk without any digest) -/
+def prefilterBuild (cfg : Cfg α) (targets : List (C05.Seq × C05.Seq)) (k seed : Nat) (drop : Bool) :
+    Option (List (DbPep α)) :=
+  if k = 0 then none else
+  (chunkDbs cfg targets k).map fun dbs => reorder (prefilterConcat seed drop dbs)
+
+/-- the sources of the chunked build: the contributions of every chunk (decoys judged against the targets of
+    THAT chunk) whose chunk entry was kept -/
+def chunkContribs (cfg : Cfg α) (targets : List (C05.Seq × C05.Seq)) (k seed : Nat) (drop : Bool)
+    (dbs : List (List (DbPep α))) : List (DbPep α) :=
+  (((chunksOf k targets).zip dbs).zipIdx).flatMap fun cdc =>
+    (contribs cfg cdc.1.1).filter fun x =>
+      !drop || (cdc.1.2.zipIdx).any fun ei => keyEq x ei.1 && keepEntry seed cdc.2 ei.2
+
+end chunked
+
+section form
+variable {α : Type} [LT α] [DecidableLT α]
+
+/-- sequence and modifications (residues and both termini) — the key of the property text, without the mass -/
+def cmpForm (a b : DbPep α) : Ordering :=
+  (lexList cmpNat a.core.sequence b.core.sequence).then <|
+  (lexList cmpOf a.core.mods b.core.mods).then <| (cmpOpt cmpOf a.core.nterm b.core.nterm).then
+  (cmpOpt cmpOf a.core.cterm b.core.cterm)
+
+def formEq (a b : DbPep α) : Bool := cmpForm a b == .eq
+
+/-- no two entries with the same sequence and modifications -/
+def clNoDupForm : List (DbPep α) → Bool
+  | [] => true
+  | a :: rest => rest.all (fun b => !formEq a b) && clNoDupForm rest
+
+/-- no decoy entry has the residue sequence of a target entry -/
+def clDecoyNotTargetSeq (out : List (DbPep α)) : Bool :=
+  out.all fun d => !d.decoy || out.all fun t => t.decoy || t.core.sequence != d.core.sequence
+
+end form
+
 end Sage.C08
